@@ -165,6 +165,11 @@ def gen_program(rnd, size=None, pseudo=True, data=True, aligns=True, transfers=T
     nlabels = rnd.randrange(1, 6)
     labels = ['L%d' % i for i in range(nlabels)]
     body = []
+    # a pessimistically-far anchor at offset 0: `align 0x200000` there pads nothing in the output but
+    # counts 2 MiB while li/call/tail/compression take their decisions, so call/tail FAR0 use the far form
+    far_anchor = transfers and aligns and rnd.random() < 0.35
+    if far_anchor:
+        labels = labels + ['FAR0', 'FAR0']
     consts_defined = []
     if consts and rnd.random() < 0.5:
         for i in range(rnd.randrange(1, 4)):
@@ -291,13 +296,27 @@ def gen_program(rnd, size=None, pseudo=True, data=True, aligns=True, transfers=T
                 a = creg(rnd)
                 body.append(Ln('    li %s, %s' % (reg_txt(rnd, a), nm), 'li', 'li', [a], extra=v))
     # sprinkle the labels
-    for L in labels:
+    if far_anchor:
+        for _ in range(rnd.randrange(1, 3)):
+            nm = rnd.choice(['call', 'call', 'tail'])
+            body.insert(rnd.randrange(0, len(body) + 1), Ln('    %s FAR0' % nm, 'pjump', nm, [], 'FAR0'))
+    for L in sorted(set(labels)):
+        if L == 'FAR0':
+            continue
         pos = rnd.randrange(0, len(body) + 1)
+        if rnd.random() < 0.5:
+            # prefer the places where the label-shifting rules are delicate: right in front of an item
+            # that shrinks (li, call, tail, align) or that is compressible
+            hot = [i for i, l in enumerate(body) if l.kind in ('li', 'pjump', 'align', 'unary', 'p0')]
+            if hot:
+                pos = rnd.choice(hot)
         body.insert(pos, Ln('%s:' % L, 'label', L))
+    if far_anchor:
+        body = [Ln('FAR0:', 'label', 'FAR0'), Ln('    align 0x200000', 'align', 'align', [0x200000])] + body
     # constants must precede their uses: move const lines to the front (stable)
     cs = [l for l in body if l.kind == 'const']
     rest = [l for l in body if l.kind != 'const']
-    return cs + rest
+    return cs + rest      # (constants emit nothing, so FAR0 stays at offset 0)
 
 
 def source(lines):
